@@ -1,4 +1,5 @@
 import Heph.Proofs.TransKotlinHistory
+import Heph.Props.C11Scala
 import Heph.Generated.TransWrites
 /-!
 # C11 — translation is a pure function of the program (Kotlin translator modelled)
@@ -28,7 +29,8 @@ What is proved, for ALL programs (any `Node` tree, typed or not):
 * `history_independent` — a translator object that has translated any list of programs prints any
   program exactly as a fresh one does; `translate_twice`.
 
-Not modelled here: the other three translators (registry `harness/trans_models.py`), exceptions.
+The Scala translator: `Props/C11Scala.lean` (namespace `Heph.Props.C11.Scala`, imported above and audited with this file).
+Not modelled here: the Java and Groovy translators (registry `harness/trans_models.py`), exceptions.
 The by-value immutability of the *program* is trivial in the model (programs are values) and is
 therefore an observation of the harness, together with finding 14.
 -/
